@@ -140,6 +140,25 @@ macro_rules! bf_atomic_real {
             op(a, name, o)
         }
 
+        /// the blanket AtomicBitFieldSlice implementation for vectors of atomic words
+        pub fn plain_atomic(k: &str, v: &mut Vec<Wd>, a: &Value) -> Result<Value, String> {
+            let mut av: Vec<A> = v.iter().map(|&x| A::new(x)).collect();
+            let r = match k {
+                "a_get" => guard(|| AtomicBitFieldSlice::<Wd>::get_atomic(&av, get_usize(a, "i"), Ordering::Relaxed))
+                    .map(|x| json!({"v": vj(x)})),
+                "a_set" => guard(|| AtomicBitFieldSlice::<Wd>::set_atomic(&av, get_usize(a, "i"), val(&a["v"]), Ordering::Relaxed))
+                    .map(|_| json!({})),
+                "a_reset" => guard(|| AtomicBitFieldSlice::<Wd>::reset_atomic(&mut av, Ordering::Relaxed)).map(|_| json!({})),
+                "a_par_reset" => {
+                    guard(|| AtomicBitFieldSlice::<Wd>::par_reset_atomic(&mut av, Ordering::Relaxed)).map(|_| json!({}))
+                }
+                "a_len" => guard(|| BitFieldSliceCore::<A>::len(&av)).map(|x| json!({"n": x})),
+                _ => guard(|| BitFieldSliceCore::<A>::bit_width(&av)).map(|x| json!({"n": x})),
+            };
+            *v = av.iter().map(|x| x.load(Ordering::SeqCst)).collect();
+            r
+        }
+
         /// conversions between the slice-backed forms: &[W] -> &[A] -> &[W]
         pub fn view_get(words: &[Wd], width: usize, len: usize, i: usize) -> Result<Value, String> {
             guard(|| {
@@ -208,6 +227,9 @@ macro_rules! bf_atomic_stub {
         }
         pub fn op_b(a: &mut AB, _name: &str, _o: &Value) -> Option<Result<Value, String>> {
             match *a {}
+        }
+        pub fn plain_atomic(_k: &str, _v: &mut Vec<Wd>, _a: &Value) -> Result<Value, String> {
+            na()
         }
         pub fn view_get(_w: &[Wd], _width: usize, _len: usize, _i: usize) -> Result<Value, String> {
             na()
@@ -339,6 +361,13 @@ macro_rules! bf_common {
                 "into_iter" => guard(|| b.into_iter().map(vj).collect::<Vec<_>>()).map(|r| json!({"res": r})),
                 "into_iter_from" => guard(|| b.into_iter_from(get_usize(op, "from")).map(vj).collect::<Vec<_>>())
                     .map(|r| json!({"res": r})),
+                // the generic iterator of the traits module, over the same vector
+                "slice_iter" => guard(|| {
+                    sux::traits::BitFieldSliceIterator::<Wd, BitFieldVec<Wd, B>>::new(b, get_usize(op, "from"))
+                        .map(vj)
+                        .collect::<Vec<_>>()
+                })
+                .map(|r| json!({"res": r})),
                 "iter_len" => guard(|| {
                     let mut it = b.iter_from(get_usize(op, "from"));
                     let mut got = 0usize;
@@ -611,6 +640,62 @@ macro_rules! bf_common {
             r.map_err(|e| format!("reload error: {e}"))
         }
 
+        /// The blanket implementations of the slice traits for plain vectors of words
+        /// (every element is a full-width field): a stateless operation over an operand
+        /// given by the script; one result per access, then the final contents.
+        fn plain(op: &Value) -> Value {
+            let mut v: Vec<Wd> = vals(&op["vals"]);
+            let mut out = Vec::new();
+            for a in op["acts"].as_array().unwrap() {
+                let k = a["k"].as_str().unwrap();
+                let r: Result<Value, String> = match k {
+                    "get" => guard(|| BitFieldSlice::<Wd>::get(&v, get_usize(a, "i"))).map(|x| json!({"v": vj(x)})),
+                    "set" => guard(|| BitFieldSliceMut::<Wd>::set(&mut v, get_usize(a, "i"), val(&a["v"]))).map(|_| json!({})),
+                    "reset" => guard(|| BitFieldSliceMut::<Wd>::reset(&mut v)).map(|_| json!({})),
+                    "par_reset" => guard(|| BitFieldSliceMut::<Wd>::par_reset(&mut v)).map(|_| json!({})),
+                    "len" => guard(|| BitFieldSliceCore::<Wd>::len(&v)).map(|x| json!({"n": x})),
+                    "bit_width" => guard(|| BitFieldSliceCore::<Wd>::bit_width(&v)).map(|x| json!({"n": x})),
+                    "copy" => {
+                        let mut d: Vec<Wd> = vals(&a["dst"]);
+                        let (from, to, n) = (get_usize(a, "from"), get_usize(a, "to"), get_usize(a, "n"));
+                        if from > v.len() || to > d.len() {
+                            na()
+                        } else {
+                            guard(|| BitFieldSliceMut::<Wd>::copy(&v, from, &mut d, to, n))
+                                .map(|_| json!({"vs": d.iter().map(|&x| vj(x)).collect::<Vec<_>>()}))
+                        }
+                    }
+                    "apply" => {
+                        let kind = a["kind"].as_str().unwrap().to_string();
+                        let m = val(&a["m"]);
+                        let mut calls: Vec<Wd> = Vec::new();
+                        let mut prev: Wd = 0;
+                        let cap = 4 * v.len() + 64;
+                        guard(|| {
+                            BitFieldSliceMut::<Wd>::apply_in_place(&mut v, |x| {
+                                if calls.len() >= cap {
+                                    panic!("too many calls");
+                                }
+                                calls.push(x);
+                                let y = apply_fn(&kind, m, Wd::MAX, x, prev);
+                                prev = x;
+                                y
+                            })
+                        })
+                        .map(|_| json!({"vs": calls.iter().map(|&x| vj(x)).collect::<Vec<_>>()}))
+                    }
+                    _ => at::plain_atomic(k, &mut v, a),
+                };
+                let base = json!({"k": "ok", "v": [], "vs": [], "n": 0});
+                out.push(match r {
+                    Ok(x) => merge(base, x),
+                    Err(m) if m == "na" => merge(base, json!({"k": "u"})),
+                    Err(_) => merge(base, json!({"k": "p"})),
+                });
+            }
+            json!({"res": {"acts": out, "fin": v.iter().map(|&x| vj(x)).collect::<Vec<_>>()}})
+        }
+
         fn set_vec(s: &mut S, r: Result<BV, String>) -> Result<Value, String> {
             r.map(|b| {
                 *s = S::Vec(b);
@@ -688,6 +773,7 @@ macro_rules! bf_common {
                         }
                     }
                     "macro_empty" | "macro_rep" | "macro_list" => macros(op, &mut s),
+                    "plain" => guard(|| plain(op)),
                     // ------------------------------------------------ growth (Vec backend only)
                     "push" => match &mut s {
                         S::Vec(b) => guard(|| b.push(val(&op["v"]))).map(|_| json!({})),
@@ -849,7 +935,7 @@ macro_rules! bf_common {
 
 const KNOWN_OPS: &[&str] = &[
     "get", "get_unchecked", "len", "is_empty", "bit_width", "iter", "iter_from", "into_iter", "into_iter_from",
-    "iter_len", "uiter", "ruiter", "eq_other", "eq_self", "addr_of", "get_unaligned", "mem_size",
+    "iter_len", "slice_iter", "uiter", "ruiter", "eq_other", "eq_self", "addr_of", "get_unaligned", "mem_size",
     "view_atomic_get", "set", "set_unchecked", "mask", "reset", "par_reset", "apply", "apply_unchecked",
     "copy_to", "copy_from", "chunks", "view_atomic_set", "a_get", "a_get_unchecked", "a_set",
     "a_set_unchecked", "a_reset", "a_par_reset", "a_reset_dep", "a_len", "a_bit_width", "a_mask", "a_all",
